@@ -136,3 +136,57 @@ func VerifC18IbcCallFailure() {
 	rt.Assert(evm.Calls == 1, "the contract is called exactly once")
 	rt.Assert((err == nil) == (outcome == 0), "the memo call reports success exactly when the contract call succeeded")
 }
+
+// VerifC19RecvPacket: an inbound IBC transfer of a registered token (returning from the
+// counterparty, so the transfer module has just released `amount` coins to the receiver) handled
+// by the middleware without memo. Addressed to a hex account it credits exactly the sent amount
+// as ERC-20 to that account (the released coins are converted, nothing else moves); addressed in
+// any other form (bech32, junk) or with an unparsable amount it returns an error and moves nothing.
+func VerifC19RecvPacket() {
+	if sdk.GetConfig().GetBech32AccountAddrPrefix() != fxtypes.AddressPrefix {
+		fxtypes.SetConfig(false)
+	}
+	ms := models.NewMultiStore("eth", erc20types.StoreKey)
+	ctx := models.NewContext(ms, 100, 1700000000)
+	bank, tok, evm := models.NewBank(ms), models.NewErc20(ms), models.NewEVM()
+	ek := erc20keeper.NewKeeper(models.NewStoreKey(erc20types.StoreKey), models.NewCodec(nil), models.Accounts{}, bank, evm, tok, nil, verifAuthority)
+	ck := crosschainkeeper.NewKeeper(models.NewCodec(nil), "eth", models.NewStoreKey("eth"), nil, nil, nil, bank, nil, ek, models.Accounts{}, evm, verifAuthority)
+	k := Keeper{evmKeeper: evm, crossChainKeeper: ck}
+	p := erc20types.DefaultParams()
+	if err := ek.SetParams(ctx, &p); err != nil {
+		panic(err)
+	}
+	denom := "usdt"
+	ek.AddTokenPair(ctx, erc20types.TokenPair{Erc20Address: verifContract.Hex(), Denom: denom, Enabled: true, ContractOwner: erc20types.OWNER_MODULE})
+	evm.Contracts = append(evm.Contracts, verifContract)
+	aHex := common.BytesToAddress(verifUserA)
+	coinA, tokA := verifAmount("coin.A", 100), verifAmount("token.A", 100)
+	amount := verifAmount("amount", 64)
+	rt.Assume(amount.IsPositive())
+	bank.SetBalance(verifUserA, denom, coinA.Add(amount)) // released by the transfer module for this packet
+	bank.SetBalance(models.ModuleAddress(erc20types.ModuleName), denom, verifAmount("escrow", 100))
+	tok.SetBalance(verifContract, aHex, tokA.BigInt())
+	receiver := []string{aHex.Hex(), verifUserA.String(), "not-an-address"}[rt.Choose("receiverForm", 3)]
+	amountText := amount.String()
+	badAmount := rt.Bool("unparsableAmount")
+	if badAmount {
+		amountText = "12x"
+	}
+	packet := channeltypes.Packet{Sequence: 3, SourcePort: "transfer", SourceChannel: "channel-9", DestinationPort: "transfer", DestinationChannel: "channel-0"}
+	data := transfertypes.FungibleTokenPacketData{Denom: "transfer/channel-9/" + denom, Amount: amountText, Sender: "cosmos1sender", Receiver: receiver}
+	rt.Cover("state-built")
+	before := ms.Snapshot()
+	err := k.OnRecvPacket(ctx, packet, data)
+	c1 := bank.Balance(verifUserA, denom)
+	t1 := sdkmath.NewIntFromBigInt(tok.BalanceOf(verifContract, aHex))
+	if err != nil {
+		rt.Cover("refused")
+		rt.Assert(rt.Or(receiver != aHex.Hex(), badAmount), "a transfer of a registered token to a hex account is not refused")
+		rt.Assert(ms.Equal(before), "a refused packet moves nothing")
+		return
+	}
+	rt.Cover("credited")
+	rt.Assert(receiver == aHex.Hex() && !badAmount, "only a transfer addressed to a hex account is converted")
+	rt.Assert(c1.Equal(coinA), "exactly the sent amount of coins is converted")
+	rt.Assert(t1.Equal(tokA.Add(amount)), "the hex account is credited exactly the sent amount as ERC-20")
+}
